@@ -156,7 +156,8 @@ def finish(module, prop, tier, seed, results, inconclusive, wall, replay):
             new.append((case, v))
     for key, (match, case, v) in sorted(listed.items()):
         print(f"KNOWN-FINDING: property={prop} {match['what']} [key={key}]")
-    replay_dir = os.path.join(VERIF, 'replays', prop)
+    selftest = bool(os.environ.get('VERIF_SELFTEST'))
+    replay_dir = os.path.join(VERIF, 'replays', 'selftest' if selftest else '', prop)
     seen_keys = set()
     rc = 0
     for case, v in new:
@@ -178,7 +179,7 @@ def finish(module, prop, tier, seed, results, inconclusive, wall, replay):
             inconclusive.append(f'counter {name}={counters.get(name, 0)} below its floor {floor}')
     if len(signatures) < 2 and not replay:
         inconclusive.append(f'only {len(signatures)} distinct non-trivial cases')
-    if not replay:
+    if not replay and not selftest:
         coverage = {'evaluations': evaluations, 'distinct_nontrivial': len(signatures), 'rule': module.RULE,
                     'samples': samples or ['(no sample returned)'], 'counters': counters,
                     'known_findings_met': sorted(listed), 'new_violation_keys': sorted(seen_keys),
